@@ -77,3 +77,7 @@ claim("C18", "E3", "model_checking",
       "explicit enumeration of authentication histories with token passwords against a recording logger (information-flow oracle on every log call)",
       "The C10 histories and the full START product are replayed with every password and shared secret replaced by a unique token; after every packet no watched token may occur in a formatted message, an unobscured record value, a field selected for retention, or a logged reply.",
       "substring search for tokens; the logger seam is the handlers' loggerProvider interface", "3/C18")
+claim("C16", "E1", "exploration",
+      "bounded-exhaustive enumeration of load histories on one loader object with a differential oracle (fresh loader) and snapshot immutability",
+      "All sequences up to length 3 (4 thorough) over 13 YAML and 13 JSON documents that drop keys, shrink/reorder lists, remove options or fail to load are fed to one loader; each published value must deep-equal a fresh loader's, earlier published values must stay equal to their snapshots, failed loads must publish nothing, and the full server must behave as the last good document says.",
+      "documents outside the 13 shapes are not explored; the fsnotify watcher is represented by calling Unmarshal on the same object", "3/C16")
